@@ -334,7 +334,21 @@ class C03:
             conj = [x for x in conjuncts(live) if x[0] != "inloop"]
             # loops must iterate the element of the previous level, unfiltered
             from sa.sym import AND
-            f = AND(*conj)
+
+            def truthy_to_len(t, s=s, vp=vp):
+                """`if not X` / `if X` on a (sub-)list of the coordinates is the test len(X) < 1 / len(X) >= 1"""
+                if not isinstance(t, tuple) or not t:
+                    return t
+                if t[0] == "not":
+                    if self.depth(t[1], s, vp) is not None:
+                        return ("cmp", "lt", ("call", ("builtin", "len"), (t[1],), ()), ("const", 1))
+                    return ("not", truthy_to_len(t[1]))
+                if t[0] in ("and", "or"):
+                    return (t[0], tuple(truthy_to_len(x) for x in t[1]))
+                if t[0] in ("param", "elem", "sub") and self.depth(t, s, vp) is not None:
+                    return ("cmp", "le", ("const", 1), ("call", ("builtin", "len"), (t,), ()))
+                return t
+            f = AND(*[truthy_to_len(x) for x in conj])
             for x in walk(f):
                 if x[0] == "cmp":
                     for side in (x[2], x[3]):
@@ -346,8 +360,36 @@ class C03:
                             return
                         names[side] = qn.replace("@", "_")
             formula_parts.append((f, r, v))
-        if not formula_parts and not spec.get("scalar") is None and False:
-            pass
+        # declarative constraints on the field itself (Field(min_length=..., max_length=..., ge=...)) reject as well
+        fi_ = self.ctx.models.field_map(c).get("coordinates")
+        if fi_ is not None and fi_.field_kwargs:
+            class _Site:  # position of the declaration, in the shape the report code expects
+                pass
+            COORD = ("param", "__coordinates__")
+            LENC = ("call", ("builtin", "len"), (COORD,), ())
+            for kname, knode in fi_.field_kwargs.items():
+                if kname not in ("min_length", "max_length", "min_items", "max_items", "ge", "gt", "le", "lt"):
+                    continue
+                if not (isinstance(knode, ast.Constant) and isinstance(knode.value, (int, float)) and not isinstance(knode.value, bool)):
+                    ctx.undec("R03.2", f"{FILE}:{fi_.node.lineno} {c.name}", f"Field({kname}=...) is not a numeric literal")
+                    return
+                k_ = ("const", knode.value)
+                if kname in ("min_length", "min_items"):
+                    f = ("cmp", "lt", LENC, k_)
+                    names[LENC] = "len_0"
+                elif kname in ("max_length", "max_items"):
+                    f = ("cmp", "lt", k_, LENC)
+                    names[LENC] = "len_0"
+                else:
+                    if not spec.get("scalar"):
+                        ctx.undec("R03.2", f"{FILE}:{fi_.node.lineno} {c.name}", f"Field({kname}=...) on a list-valued field")
+                        return
+                    names[COORD] = "v"
+                    f = {"ge": ("cmp", "lt", COORD, k_), "gt": ("cmp", "le", COORD, k_), "le": ("cmp", "lt", k_, COORD), "lt": ("cmp", "le", k_, COORD)}[kname]
+                r_, v_ = _Site(), _Site()
+                r_.lineno, r_.live, r_.term = fi_.node.lineno, f, ("const", None)
+                v_.name = f"Field({kname}={knode.value})"
+                formula_parts.append((f, r_, v_))
         # quantities of the specification
         qs: Dict[str, list] = {}
         F = f_pts(self.MAX)
@@ -545,6 +587,8 @@ class C03:
                         have = established.get(d, 0)
                         LEN = ("call", ("builtin", "len"), (x[1],), ())
                         for cj in conjuncts(e.live):
+                            if cj == x[1]:
+                                have = max(have, 1)  # `if X:` -- a non-empty list
                             if cj[0] == "cmp" and cj[1] == "le" and cj[2][0] == "const" and cj[3] == LEN and isinstance(cj[2][1], int):
                                 have = max(have, cj[2][1])
                             if cj[0] == "cmp" and cj[1] == "lt" and cj[2][0] == "const" and cj[3] == LEN and isinstance(cj[2][1], int):
@@ -568,7 +612,13 @@ class C03:
                 # the rejecting test is the last conjunct; the ones before it must be what earlier rejections left behind
                 # (lower bounds on lengths), otherwise the rejection is conditional and establishes nothing
                 def lower_bound(x):
+                    if self.depth(x, s, vp) is not None:
+                        return True  # truthiness of a (sub-)list of the coordinates: it is not empty
                     return x[0] == "cmp" and x[1] in ("le", "lt") and x[2][0] == "const" and x[3][0] == "call" and x[3][1] == ("builtin", "len")
+                if conj and conj[-1][0] == "not" and self.depth(conj[-1][1], s, vp) is not None and all(lower_bound(x) for x in conj[:-1]):
+                    d = self.depth(conj[-1][1], s, vp)  # `if not X: raise` rejects the empty list
+                    established[d] = max(established.get(d, 0), 1)
+                    continue
                 if not conj or conj[-1][0] != "cmp" or not all(lower_bound(x) for x in conj[:-1]):
                     continue
                 cj = conj[-1]
@@ -696,8 +746,12 @@ class C03:
                 ctx.ok("R03.4", site, f"mode {mval!r}: from_attributes={want_fa}")
             # class chosen by the object's own tag
             good = False
+            tag = None
             if cls[0] == "sub" and cls[1] == MAP:
                 tag = cls[2]
+            elif cls[0] == "call" and cls[1] == ("attr", MAP, "get") and len(cls[2]) in (1, 2) and not cls[3] and cls[2][1:] in ((), (NONE,)):
+                tag = cls[2][0]  # MAP.get(tag): the same lookup, None for an unknown tag (which must then be rejected)
+            if tag is not None:
                 if mval == "attributes":
                     good = tag == ("attr", obj, "type")
                 else:
@@ -726,7 +780,9 @@ class C03:
         else:
             ctx.bad("R03.4", FILE, "geometry_validate", "except ValidationError -> ValueError",
                     "a pydantic ValidationError is not converted into the documented ValueError", calls[0].lineno)
-        unknown = [r for r in s.raises if any(x == ("cmp", "notin", x[2], MAP) for x in conjuncts(r.live) if x[0] == "cmp" and x[1] == "notin")]
+        unknown = [r for r in s.raises if any(x == ("cmp", "notin", x[2], MAP) for x in conjuncts(r.live) if x[0] == "cmp" and x[1] == "notin")
+                   or any(x[0] == "cmp" and x[1] == "is" and x[3] == NONE and x[2][0] == "call" and x[2][1] == ("attr", MAP, "get")
+                          and x[2] == call[1][1] for x in conjuncts(r.live))]
         if unknown:
             ctx.ok("R03.4", site, "unknown tag rejected with ValueError")
         else:
